@@ -234,15 +234,38 @@ pub fn slice(value: Value, start: Value, stop: Value, step: Value) -> Result<Val
             }
 
             if step > 0 {
-                let len = obj.enumerator_len().unwrap_or_default();
-                let (start, len) = get_offset_and_len(start, stop, || len);
-                Ok(Value::make_object_iterable(obj, move |obj| {
-                    if let Some(iter) = obj.try_iter() {
-                        Box::new(iter.skip(start).take(len).step_by(step as usize))
-                    } else {
-                        Box::new(None.into_iter())
-                    }
-                }))
+                if let Some(len) = obj.enumerator_len() {
+                    let (start, len) = get_offset_and_len(start, stop, || len);
+                    Ok(Value::make_object_iterable(obj, move |obj| {
+                        if let Some(iter) = obj.try_iter() {
+                            Box::new(iter.skip(start).take(len).step_by(step as usize))
+                        } else {
+                            Box::new(None.into_iter())
+                        }
+                    }))
+                } else {
+                    // the length of a lazy iterable is only known once it was
+                    // iterated: an omitted stop or a negative bound counts from
+                    // the end of the items that are really there.
+                    Ok(Value::make_object_iterable(obj, move |obj| {
+                        if let Some(iter) = obj.try_iter() {
+                            let needs_len =
+                                start.map_or(false, |x| x < 0) || stop.map_or(true, |x| x < 0);
+                            let (iter, known): (Box<dyn Iterator<Item = Value> + Send + Sync>, _) =
+                                if needs_len {
+                                    let items: Vec<Value> = iter.collect();
+                                    let known = items.len();
+                                    (Box::new(items.into_iter()), known)
+                                } else {
+                                    (iter, 0)
+                                };
+                            let (start, len) = get_offset_and_len(start, stop, || known);
+                            Box::new(iter.skip(start).take(len).step_by(step as usize))
+                        } else {
+                            Box::new(None.into_iter())
+                        }
+                    }))
+                }
             } else {
                 Ok(Value::make_object_iterable(obj.clone(), move |obj| {
                     if let Some(iter) = obj.try_iter() {
